@@ -255,3 +255,12 @@ package didstore
 //@        && ret(call matches #1) == true && same(arg(call matches #1, 0), metadata) && arg(call matches #1, 1) == resolveMetadata
 //@        && !( metadata.Deactivated && (latestNonDeactivatedRequested(resolveMetadata) || (resolveMetadata != nil && !resolveMetadata.AllowDeactivated && resolveMetadata.ResolveTime != nil && resolveMetadata.Hash == nil && resolveMetadata.SourceTransaction == nil && !metadata.Updated.After(*resolveMetadata.ResolveTime))) )
 //@        && same(arg(1), metadata.Hash)
+
+// ---- C10: the place of a version's metadata is a function of its POSITION in the event list: whenever the list is written,
+// EVERY event is (re)numbered "<did><index>" - an event that moved up because a late one was inserted before it must not keep
+// the reference of its old position (the next version would be derived from the wrong predecessor) ----
+//@ func writeEventList
+//@   prop C10
+//@   loop 1 invariant [every-event-is-renumbered-by-its-position] $i == 0 || (did(call store.MetaRef #1) && arg(call store.MetaRef #1, 1) == ret(call fmt.Sprintf #1)
+//@        && arg(call fmt.Sprintf #1, 0) == "%s%d" && len(arg(call fmt.Sprintf #1, 1)) == 2 && arg(call fmt.Sprintf #1, 1)[1] == any($i - 1))
+//@   call (go-stoabs.Writer).Put #1 requires [the-renumbered-list-is-what-is-stored] $done1 && arg(2) == ret(call json.Marshal #1).0
